@@ -119,7 +119,7 @@ pub fn profile(prop: &str) -> Profile {
             p
         }
         "C03" => {
-            let mut p = Profile::base(boost(boost(uniform(&[Fmt, FmtIter, WithCap]), &[Fill, Overflow], 60), &[Insert, InsertKv, Checked, Entry, SInsert, FromIter, SFromIter, SExtend, SExtendRef, Remove, Retain, Drain, Clone], 25));
+            let mut p = Profile::base(boost(boost(uniform(&[Fmt, FmtIter, WithCap]), &[Fill, Overflow], 60), &[Insert, InsertKv, Checked, Entry, SInsert, FromIter, SFromIter, SExtend, SExtendRef, Transfer, Remove, Retain, Drain, Clone], 25));
             p.max_ops = 16;
             p.src_tricks = true;
             p.bad_hints = true;
